@@ -79,7 +79,9 @@ func (e *Engine) verifyCase(key string, fd *ast.FuncDecl, c *FuncContract, pinne
 				obls = x.obls
 				return
 			}
-			panic(r)
+			// an engine fault must never look like a verdict or crash the check: report it as "cannot generate"
+			err = fmt.Errorf("%s: internal error while generating obligations (construct outside the supported subset?): %v", key, r)
+			obls = x.obls
 		}
 	}()
 	// loop ordinals, pre-order
